@@ -420,6 +420,16 @@ func (g *TemplateGenerator) Generate(
 		return c.Str("template", g.templateName).Str("schema", g.templateSchema)
 	})
 
+	// A type parameter hides an import of the same name in the whole mock, so
+	// no import may be called like a type parameter of one of the interfaces.
+	for _, ifaceMock := range interfaces {
+		if _, tparams, err := g.registry.LookupInterface(ifaceMock.Name); err == nil {
+			for i := 0; tparams != nil && i < tparams.Len(); i++ {
+				g.registry.ReserveQualifier(tparams.At(i).Obj().Name())
+			}
+		}
+	}
+
 	mockData := []template.Interface{}
 	for _, ifaceMock := range interfaces {
 		ifaceLog := log.With().
